@@ -404,4 +404,28 @@ def trig_domain(repo: Repo) -> RuleRun:
 
 trig_domain.rule_id = "C11.TRIG-DOMAIN"
 
-RULES = [quad_map_rule, chop_coverage, chop_role, radial_convention, chain_source, mirror_pairing, trig_domain]
+def fill_conformal(repo: Repo) -> RuleRun:
+    """'conformal': Cylinder.fill shares every interface vertex with the ring only when the ring has as many segments as the
+    filling disk has outer faces; the guard must accept exactly that count (abstract run of the guard for 1..32 segments)."""
+    from . import c20
+
+    r = RuleRun(PROP, "C11.FILL-CONFORMAL", floor=1, what="Cylinder.fill accepts a ring iff its segment count equals the number of outer faces of the filling sketch")
+    c20.fill_conformal(repo, r)
+    return r
+
+
+fill_conformal.rule_id = "C11.FILL-CONFORMAL"
+
+
+def arc_side(repo: Repo) -> RuleRun:
+    """Revolved shapes with a negative angle are right-handed only if the side arcs bend the right way: the sign of the sector
+    angle must reach the arc centre. Same rule as C08.SIGN-FLOWS."""
+    from ..report import rebrand
+    from . import c08
+
+    return rebrand(c08.sign_flows(repo), PROP, "C11.ARC-SIDE")
+
+
+arc_side.rule_id = "C11.ARC-SIDE"
+
+RULES = [quad_map_rule, chop_coverage, chop_role, radial_convention, chain_source, mirror_pairing, trig_domain, fill_conformal, arc_side]
